@@ -14,7 +14,7 @@ EXTENDS JsonTextGen, XdlSM
 
 SMAgree == done => LET r == Decode(text) IN r.ok /\ r.v = val
 SMPrefix == (~done /\ Inside) => ~Decode(text).ok
-SMNoUnderflow == NoUnderflowS(Run(Run(SMInit, text), <<32>>))
+SMNoUnderflow == NoUnderflowS(Run(Run(SMInit, text), Flush))
 SMChunks == \A k \in 0..Len(text) :
                Run(Run(SMInit, SubSeq(text, 1, k)), SubSeq(text, k + 1, Len(text))) = Run(SMInit, text)
 
@@ -23,7 +23,7 @@ RECURSIVE PrefixStates(_, _, _)
 PrefixStates(s, t, i) == IF i > Len(t) THEN <<s>> ELSE <<s>> \o PrefixStates(Step(s, t[i]), t, i + 1)
 SMAll == LET ps == PrefixStates(SMInit, text, 1)                    \* ps[k+1] = state after the first k bytes
              full == ps[Len(text) + 1]
-             endst == Run(full, <<32>>)
+             endst == Run(full, Flush)
              r == Result(endst)
          IN /\ NoUnderflowS(endst)
             /\ done => (r.ok /\ r.v = val)
